@@ -7,19 +7,33 @@ Outcome classes are produced by scripted stub agents (and, in a second workload,
 proxies around the genuine BioAgents).
 
 Structure: `Rig` owns one real loop with its stubs / callbacks and executes concrete operations
-(request, clock advance, reset, cache clear); `Session` = Rig + reference automaton + judgement.
-Sessions are run alone, in pairs on one clock (two differently configured instances used
-alternately), very long (> 20 000 operations on one instance), and followed by a "twin" replay
-of the same concrete operations with no / many read-only calls in between (differential).
+(request, clock advance, reset, cache clear, assignment of a public setting, continuing on a
+duplicate); `Session` = Rig + reference automaton + judgement. Sessions are run alone, in pairs on
+one clock (two differently configured instances used alternately), very long (> 20 000 operations
+on one instance), and followed by a "twin" replay of the same concrete operations with no / many
+read-only calls in between (differential). A share of the sessions runs with the process time
+zone far from UTC (fixed offsets, and zones whose local clock steps), with strict output streams
+and hostile text, with every lock of the instance guarded, and one small probe runs under
+`python -O`.
 """
 import contextlib
+import copy
 import datetime as _dt
+import decimal
 import enum
+import fractions
+import gc
+import inspect
 import itertools
+import json
+import pickle
+import random
+import subprocess
 import sys
 
 from rv import core, sched
-from rv.locks import wrap_all_locks
+from rv import c08_aux as aux
+from rv.locks import DetectingLock, WouldHang
 from rv.vclock import VClock, patched
 from rv.faults import enable_unprintable, make_exception
 
@@ -33,16 +47,25 @@ RULE = ("threshold 1..4 x recovery {1s,60s} x cache on/off x breaker on/off; all
         "recovery timeout, R manual reset} are swept, longer ones (6-8) sampled with extreme / fractional thresholds and timeouts (0, sub-second, "
         "fractional, whole days), verbose mode, raising / reading callbacks, shared verdict objects, repeated prompts, clock jumps beyond 24 h, "
         "cache clears, pairs of differently configured instances used alternately, read-only calls interleaved (differential twin) and sessions of "
-        "> 20 000 operations on one instance; a second workload drives the genuine BioAgents; "
+        "> 20 000 operations on one instance; a second workload drives the genuine BioAgents (also on a budget that runs dry); round 4: both agents "
+        "failing at once, public settings assigned mid-session, bool / Fraction / Decimal / falsy setting values, falsy callables, duplicates "
+        "(copy / deepcopy / pickle), process time zones far from UTC incl. local-clock steps, strict output streams with hostile text, "
+        "garbage-collected prompts, guarded locks, python -O; "
         "non-trivial = the sequence reaches OPEN; distinct = reference-automaton state trace")
-ASSUMPTIONS = ["default AND gate; failure := executor FAILURE verdict (assessor permitting) or agent exception, as the statement lists them",
+ASSUMPTIONS = ["default AND gate; failure := executor FAILURE verdict (the assessor not blocking) or agent exception, as the statement lists them",
                "several probes may be admitted while half-open; a cache hit is not a consultation",
                "failures counted 'in total' since the last clear (successful probe / manual reset); an implementation that also clears on ordinary successes is accepted",
                "a user callback (on_block / on_permit) that raises may make run() raise that very exception; the breaker obligations are judged on the state afterwards, "
-               "using the result object the callback was handed",
+               "using the result object the callback was handed; the same for a strict stdout that cannot encode the printed text (UnicodeEncodeError), using the results log",
                "a recovery timeout <= 0 means every request after a trip is admitted as a probe; thresholds outside 1..4 (0, negative, fractional, huge, inf) are judged "
                "only through the two inequalities of the statement (never open with fewer failures in total than the threshold, open once the consecutive failures reach it)",
-               "read-only calls (statistics, stats, results log, repr) and clear_cache() are not requests: they must not change any later reply"]
+               "read-only calls (statistics, stats, results log, repr) and clear_cache() are not requests: they must not change any later reply",
+               "public settings assigned after construction: every obligation follows the CURRENT value; while the breaker is disabled only 'never CIRCUIT_OPEN, agents consulted' "
+               "is judged, and when it is enabled again the automaton continues from the state the loop reports (open only if the threshold was reached in total)",
+               "the recovery timeout is elapsed REAL time since the last failure: a step of the local wall clock (daylight saving) neither stretches nor cuts it",
+               "the last_failure statistic may be a naive local, naive UTC or aware datetime; only the instant it denotes is compared",
+               "an executor FAILURE verdict together with an assessor verdict that is neither PERMIT nor BLOCK (FAILURE, unknown) is an executor failure; "
+               "an assessor FAILURE verdict alone is not one of the listed outcomes (recorded, the automaton follows the loop)"]
 
 ALPHA = ["S", "B", "F", "X", "C", "d<", "d=", "d>", "R"]
 CONFIGS = [(th, rec, cache, True, "AND") for th in (1, 2, 3, 4) for rec in (1.0, 60.0) for cache in (False, True)] + \
@@ -52,10 +75,24 @@ CONFIGS = [(th, rec, cache, True, "AND") for th in (1, 2, 3, 4) for rec in (1.0,
 # boundary, a jump of whole days, clearing the cache
 RAND_ALPHA = ALPHA + ["Fs", "Xs", "Xa", "d-", "d+", "dD", "K"]
 RAND_W = [3, 2, 4, 4, 1, 2, 1, 2, 1, 2, 2, 2, 2, 1, 1, 1]
+# round 4: both agents failing in one request (FF executor FAILURE + assessor FAILURE, Fw executor FAILURE + an assessor verdict outside the
+# vocabulary, XX both raise, FX executor FAILURE + assessor raises), AF = the assessor alone answers FAILURE (not a listed outcome)
+RAND4_ALPHA = RAND_ALPHA + ["FF", "Fw", "XX", "FX", "AF"]
+RAND4_W = [5] + RAND_W[1:] + [4, 2, 2, 2, 1]
+FAIL_VARIANTS = {"FF": "F", "Fw": "F", "XX": "X", "FX": "X", "AF": "A"}
+WEIRD_VERDICTS = ["EXECUTE", "UNKNOWN", "", "permit", "ERROR"]
 DAY = 86400.0
-EXT_THRESHOLDS = [0, -1, 1, 2, 2.5, 3.0, 3.000000000000001, 4, 7, 2 ** 53 + 1, float("inf")]
+EXT_THRESHOLDS = [0, -1, 1, 2, 2.5, 3.0, 3.000000000000001, 4, 7, 2 ** 53 + 1, float("inf"),
+                  True, fractions.Fraction(5, 2), decimal.Decimal("2.5"), fractions.Fraction(3), decimal.Decimal(2)]
 EXT_RECOVERIES = [0.0, -1.0, 0.001, 0.05, 0.1 + 0.2, 0.5, 1.0005, 2.5, 59.999, 60, 3600.5, DAY, DAY + 3600.0, 3 * DAY]
-DEFAULT_OPTS = {"verbose": False, "callbacks": None, "ident": "fresh", "prompts": "fresh", "cache_ttl": 10 ** 6, "timeout_seconds": 30.0}
+TYPED_RECOVERIES = [True, fractions.Fraction(1, 2), decimal.Decimal("0.5"), fractions.Fraction(60)]     # Fraction / Decimal are refused by timedelta: recorded
+TRUTHY = [True, 1, "yes", 2.5, [0]]
+FALSY = [False, 0, None, "", 0.0, ()]
+DEFAULT_OPTS = {"verbose": False, "callbacks": None, "ident": "fresh", "prompts": "fresh", "cache_ttl": 10 ** 6, "timeout_seconds": 30.0,
+                # round 4
+                "tz": None, "tz_kind": None, "dst_pick": 0, "dst_lead": 30.0, "stream": "sink", "hostile": False, "gc": False, "locks": None,
+                "enabled_raw": None, "real_budget": None}
+BASE = 1_700_000_000.0
 
 
 def sweep_size(depth):
@@ -87,7 +124,7 @@ def plan(tier):
     extra = 10000 if tier == "quick" else 300000
     return {"cases": nsweep + extra, "shards": 8 if tier == "quick" else 14, "min_nontrivial": 200,
             "timeout": 600 if tier == "quick" else 2400,
-            "require": {"steps": 50000, "open_refusals_checked": 3000, "probes_admitted": 1000, "probe_success_closed": 200,
+            "require": {"steps": 40000, "open_refusals_checked": 3000, "probes_admitted": 800, "probe_success_closed": 150,
                         "probe_failure_reopened": 200, "trips": 1000, "executor_failures": 3000, "agent_exceptions": 3000,
                         "real_agent_steps": 500, "slow_failures": 1000, "other_gate_blocks": 500,
                         "thread_schedules": 2000, "concurrent_failures_judged": 2000,
@@ -97,7 +134,13 @@ def plan(tier):
                         "long_session_steps": 9000, "long_session_trips": 100, "truncation_gap_refusals": 100, "fractional_gap_refusals": 40, "day_jump_probes": 50,
                         "subsecond_timeout_refusals": 100, "zero_timeout_probes": 50, "shared_verdict_object_requests": 1000,
                         "repeated_prompt_failures": 300, "cache_clears": 300, "extreme_threshold_failures": 500,
-                        "assessor_exceptions": 500}}
+                        "assessor_exceptions": 500,
+                        # round 4
+                        "both_agents_failing": 1000, "real_both_agents_failing": 100, "settings_assigned_midsession": 500, "reenabled_midsession": 20,
+                        "disabled_requests_judged": 800, "typed_setting_sessions": 300, "falsy_callable_requests": 100, "duplicates_continued": 60,
+                        "tz_requests": 1500, "tz_open_refusals": 300, "tz_probes_admitted": 80, "local_clock_step_judged": 15,
+                        "strict_stream_requests": 600, "strict_stream_refused_output": 5, "hostile_text_requests": 700, "gc_requests": 200,
+                        "guarded_lock_ops": 20000, "optimized_child_steps": 500}}
 
 
 class Boom(Exception):
@@ -146,6 +189,12 @@ class Stub:
         self.clock = None
         self.const = False
         self.exc_index = 0
+        self.hostile = False
+
+    def text(self, default):
+        if not self.hostile:
+            return default
+        return aux.HOSTILE_TEXT[self.calls % len(aux.HOSTILE_TEXT)]
 
     def express(self, signal):
         from operon_ai.core.types import ActionProtein
@@ -157,10 +206,10 @@ class Stub:
             if self.const:
                 raise CONST_EXC
             self.exc_index += 7
-            raise make_exception(self.exc_index, "agent crashed")      # a different exception class (with / without message) each time
+            raise make_exception(self.exc_index, self.text("agent crashed"))      # a different exception class (with / without message) each time
         if self.const:
             return const_protein(self.verdict)
-        return ActionProtein(self.verdict, "p", 0.9)
+        return ActionProtein(self.verdict, self.text("p"), 0.9)
 
 
 class Proxy:
@@ -183,8 +232,7 @@ class Proxy:
 class Model:
     """Reference timed automaton written from the statement."""
 
-    def __init__(self, threshold, recovery, enabled):
-        self.th, self.rec, self.enabled = threshold, recovery, enabled
+    def __init__(self):
         self.state = "closed"
         self.total = 0          # failures since the last clear
         self.consec = 0         # consecutive failures (no success in between)
@@ -201,45 +249,95 @@ def read_only_calls(loop):
     loop.get_circuit_breaker_stats()
 
 
+CALLED_METHODS = {"run", "clear_cache", "reset_circuit_breaker", "get_circuit_breaker_stats", "get_statistics", "get_results_log"}
+USED_KWARGS = {"budget", "gate_logic", "enable_circuit_breaker", "failure_threshold", "recovery_timeout_seconds", "enable_cache", "cache_ttl_seconds",
+               "timeout_seconds", "on_block", "on_permit", "silent"}
+_API_REPORTED = []
+
+
+def report_api_coverage(ctx, loop_cls, loop):
+    """informational: public methods / constructor keywords of the anchored class that no session of this harness uses"""
+    if _API_REPORTED:
+        return
+    _API_REPORTED.append(1)
+    for name in dir(loop):
+        if not name.startswith("_") and inspect.ismethod(getattr(loop, name, None)) and name not in CALLED_METHODS:
+            ctx.count("public_method_never_called:%s(recorded)" % name)
+    try:
+        for name in inspect.signature(loop_cls.__init__).parameters:
+            if name not in USED_KWARGS and name != "self":
+                ctx.count("constructor_keyword_never_used:%s(recorded)" % name)
+    except (TypeError, ValueError):
+        pass
+    ctx.count("api_coverage_reports")
+
+
 class Rig:
     """One real loop + its monitors. `reads`: 'monitor' (the Session reads stats around every request), 'blind' (no read-only call at all),
     'noisy' (a burst of read-only calls before and after every operation)."""
 
-    def __init__(self, clock, cfg, opts, real=False, budget=None, reads="monitor"):
+    def __init__(self, clock, cfg, opts, real=False, budget=None, reads="monitor", ctx=None):
         from operon_ai.topology.loops import CoherentFeedForwardLoop, GateLogic
         from operon_ai.state.metabolism import ATP_Store
         self.clock, self.cfg, self.opts, self.real, self.reads = clock, cfg, opts, real, reads
         threshold, recovery, cache, enabled, logic = cfg
-        self.sink = Sink()
+        self.sink = aux.StrictStream() if opts["stream"] == "strict" else Sink()
+        self.printing = bool(opts["verbose"] or real)
         self.cb_results = []
         self.cb_exc = None
         self.cb_calls = 0
+        self.cb_mode = opts["callbacks"]
+        self.falsy_calls = 0
+        self.rejected = None
+        self.lockstate = None
+        self.held = []
+        self.gc_done = False
         with self.quiet():
-            self.budget = budget if budget is not None else ATP_Store(10 ** 7, silent=True)
+            if budget is not None:
+                self.budget = budget
+            else:
+                self.budget = ATP_Store(opts["real_budget"] if (real and opts["real_budget"]) else 10 ** 7, silent=True)
             kw = {}
-            mode = opts["callbacks"]
-            if mode is not None:
-                kw = {"on_block": self._callback, "on_permit": self._callback}
-            self.loop = CoherentFeedForwardLoop(self.budget, gate_logic=GateLogic[logic], enable_circuit_breaker=enabled, failure_threshold=threshold,
-                                                recovery_timeout_seconds=recovery, enable_cache=cache, cache_ttl_seconds=opts["cache_ttl"],
-                                                timeout_seconds=opts["timeout_seconds"], silent=not opts["verbose"], **kw)
+            if self.cb_mode is not None:
+                kw = {"on_block": self.make_callback(self.cb_mode), "on_permit": self.make_callback(self.cb_mode)}
+            raw_enabled = enabled if opts["enabled_raw"] is None else opts["enabled_raw"][0]
+            try:
+                self.loop = CoherentFeedForwardLoop(self.budget, gate_logic=GateLogic[logic], enable_circuit_breaker=raw_enabled, failure_threshold=threshold,
+                                                    recovery_timeout_seconds=recovery, enable_cache=cache, cache_ttl_seconds=opts["cache_ttl"],
+                                                    timeout_seconds=opts["timeout_seconds"], silent=not opts["verbose"], **kw)
+            except (TypeError, ValueError) as e:
+                self.rejected = e          # a setting type the constructor refuses: no loop, nothing to judge
+                return
+        if ctx is not None:
+            report_api_coverage(ctx, CoherentFeedForwardLoop, self.loop)
         if real:
             self.ex, self.asr = Proxy(self.loop.executor), Proxy(self.loop.assessor)
         else:
-            self.ex, self.asr = Stub("Gene_Z (Exec)", self.budget), Stub("Gene_Y (Risk)", self.budget)
+            hostile = opts["hostile"]
+            names = ("Gene_Z (Exec)", "Gene_Y (Risk)") if not hostile else (aux.HOSTILE_TEXT[0], aux.HOSTILE_TEXT[3])
+            self.ex, self.asr = Stub(names[0], self.budget), Stub(names[1], self.budget)
             self.ex.clock = self.asr.clock = clock
             self.ex.const = self.asr.const = opts["ident"] == "const"
+            self.ex.hostile = self.asr.hostile = hostile
         self.loop.executor, self.loop.assessor = self.ex, self.asr
+        # every lock of the instance is guarded, whatever it is called: a call that would never return is reported instead of hanging the shard
+        self.lock_factory = DetectingLock if opts["locks"] == "stacks" else aux.LightDetectingLock
+        self.lockstate = aux.guard_locks(self.loop, self.lock_factory, "loop")
+
+    def make_callback(self, mode):
+        return aux.FalsyCallable(self._callback) if mode == "falsy" else self._callback
 
     def quiet(self):
-        if self.opts["verbose"] or self.real:
+        if self.printing:
             return contextlib.redirect_stdout(self.sink)
         return contextlib.nullcontext()
 
     def _callback(self, result):
         self.cb_calls += 1
         self.cb_results.append(result)
-        mode = self.opts["callbacks"]
+        mode = self.cb_mode
+        if mode == "falsy":
+            self.falsy_calls += 1
         if mode == "reads":
             read_only_calls(self.loop)
         elif mode == "raise" or (mode == "raise-some" and self.cb_calls % 2 == 1):
@@ -248,6 +346,30 @@ class Rig:
 
     def calls(self):
         return self.ex.calls + self.asr.calls
+
+    def last_logged(self):
+        log = self.loop.get_results_log(1)
+        return log[-1] if log else None
+
+    def duplicate(self, kind):
+        """continue the session on a duplicate of the loop (the agents, the budget and the user callbacks stay the harness' own objects)"""
+        loop = self.loop
+        try:
+            if kind == "copy":
+                dup = copy.copy(loop)
+            elif kind == "deepcopy":
+                dup = copy.deepcopy(loop)
+            else:
+                dup = pickle.loads(pickle.dumps(loop))
+        except Exception:      # noqa  an object holding a lock / bound callbacks cannot be deep-copied or pickled: not an obligation of the statement
+            return False
+        dup.executor, dup.assessor, dup.budget = self.ex, self.asr, self.budget
+        if kind != "copy":
+            if self.cb_mode is not None:
+                dup.on_block = dup.on_permit = self.make_callback(self.cb_mode)
+            self.lockstate = aux.guard_locks(dup, self.lock_factory, "dup")
+        self.loop = dup
+        return True
 
     def do(self, op):
         """execute one concrete operation; for a request returns the observation dict"""
@@ -264,15 +386,31 @@ class Rig:
         elif kind == "clear":
             with self.quiet():
                 self.loop.clear_cache()
+        elif kind == "set":
+            if op[1] == "silent" and not op[2]:
+                self.printing = True
+            setattr(self.loop, op[1], op[2])
+        elif kind == "set_cb":
+            self.cb_mode = op[1]
+            self.loop.on_block = self.loop.on_permit = None if op[1] is None else self.make_callback(op[1])
+        elif kind == "dup":
+            with self.quiet():
+                out = {"dup": self.duplicate(op[1])}
         else:
             _, prompt, verdicts, slow, who = op
             if not self.real and verdicts is not None:
                 self.ex.verdict, self.asr.verdict = verdicts
                 self.ex.slow = slow if who == "ex" else 0.0
                 self.asr.slow = slow if who == "as" else 0.0
+            if self.opts["gc"]:
+                # dead inputs really are gone before the next request (young generation every time, everything once per session)
+                gc.collect(0 if (self.gc_done or self.opts["gc"] != "full") else 2)
+                self.gc_done = True
             calls0, bal0 = self.calls(), self.budget.get_balance()
+            may_refuse_text = self.printing and self.opts["stream"] == "strict" and self.opts["hostile"]
+            logged0 = self.last_logged() if may_refuse_text else None
             self.cb_results, self.cb_exc = [], None
-            r, err, raised = None, None, False
+            r, err, raised, print_raised = None, None, False, False
             try:
                 with self.quiet():
                     r = self.loop.run(prompt)
@@ -280,12 +418,19 @@ class Rig:
                 if e is self.cb_exc and self.cb_results:
                     raised = True
                     r = self.cb_results[-1]      # the reply the loop had produced when it alerted the observer
+                elif isinstance(e, UnicodeEncodeError) and may_refuse_text:
+                    # the user's stdout could not encode what the loop printed: the reply is the one the loop logged for this request
+                    print_raised = True
+                    last = self.last_logged()
+                    r = last if last is not logged0 else None
                 else:
                     err = e
-            out = {"r": r, "err": err, "cb_raised": raised, "calls": self.calls() - calls0, "spent": bal0 - self.budget.get_balance()}
+            out = {"r": r, "err": err, "cb_raised": raised, "print_raised": print_raised, "calls": self.calls() - calls0,
+                   "spent": bal0 - self.budget.get_balance()}
         if self.reads == "noisy":
             with self.quiet():
                 read_only_calls(self.loop)
+        self.held = aux.held_locks(self.lockstate)
         return out
 
 
@@ -293,15 +438,39 @@ def obs_tuple(o):
     if o["err"] is not None:
         return ("raised", type(o["err"]).__name__, o["calls"], o["spent"])
     r = o["r"]
-    return (r.action, bool(r.cached), bool(r.blocked), bool(r.success), o["calls"], o["spent"], o["cb_raised"])
+    if r is None:
+        return ("print-raised", o["calls"], o["spent"])
+    return (r.action, bool(r.cached), bool(r.blocked), bool(r.success), o["calls"], o["spent"], o["cb_raised"], o["print_raised"])
+
+
+def stamp_denotes(dt, t):
+    """does the datetime `dt` (naive local, naive UTC or aware) denote the instant t (seconds since the epoch)?"""
+    if dt is None:
+        return False
+    if dt.tzinfo is not None:
+        return abs(dt.timestamp() - t) <= 1e-3
+    tol = _dt.timedelta(milliseconds=1)
+    local = _dt.datetime.fromtimestamp(t)
+    utc = _dt.datetime.fromtimestamp(t, _dt.timezone.utc).replace(tzinfo=None)
+    return abs(dt - local) <= tol or abs(dt - utc) <= tol
+
+
+def is_small_int(th):
+    return isinstance(th, int) and not isinstance(th, bool) and 1 <= th <= 4
+
+
+def plain_number(v):
+    return isinstance(v, (int, float)) and not isinstance(v, bool)
 
 
 class Session:
     def __init__(self, ctx, clock, cfg, opts, witness, label="", real=False, budget=None, long=False):
         self.ctx, self.clock, self.cfg, self.opts, self.witness, self.label, self.real, self.long = ctx, clock, cfg, opts, witness, label, real, long
-        threshold, recovery, cache, enabled, logic = cfg
-        self.rig = Rig(clock, cfg, opts, real=real, budget=budget)
-        self.m = Model(threshold, recovery, enabled)
+        # the CURRENT settings (public attributes may be assigned mid-session)
+        self.threshold, recovery, self.cache, self.enabled, self.logic = cfg
+        self.recovery = float(recovery)
+        self.rig = Rig(clock, cfg, opts, real=real, budget=budget, ctx=ctx)
+        self.m = Model()
         self.fresh = itertools.count()
         self.cached_prompts = []       # prompts whose reply the cache holds: (prompt, class)
         self.cur_cls = None            # outcome class the stubs are currently scripted for
@@ -309,7 +478,15 @@ class Session:
         self.script = []               # concrete operations, for the twin replay
         self.observed = []             # one obs_tuple per request
         self.dead = False
-        self.extreme_th = not (isinstance(threshold, int) and 1 <= threshold <= 4)
+        self.rejected = self.rig.rejected is not None
+        if self.rejected:
+            self.dead = True
+            ctx.count("constructor_rejected_setting_type(recorded)")
+        elif opts["enabled_raw"] is not None or not plain_number(self.threshold) or not plain_number(recovery):
+            ctx.count("typed_setting_sessions")
+        self.extreme_th = not is_small_int(self.threshold)
+        self.tz = opts["tz"] is not None
+        self.early_open = None
 
     def viol(self, mech, what):
         self.dead = True
@@ -323,18 +500,88 @@ class Session:
 
     def do(self, op):
         self.script.append(op)
-        return self.rig.do(op)
+        out = self.rig.do(op)
+        self.ctx.count("guarded_lock_ops")
+        if self.rig.held and not self.dead:
+            self.viol("lock-held-after-return", "operation %s returned with the instance lock(s) %s still held" % (op[0], self.rig.held))
+        return out
 
     def step(self, sym):
         """one symbol of the abstract alphabet; returns False once a violation has been recorded"""
         if self.dead:
             return False
-        ctx, m, clock, loop = self.ctx, self.m, self.clock, self.rig.loop
-        threshold, recovery, cache, enabled, logic = self.cfg
+        try:
+            return self._step(sym)
+        except WouldHang as e:
+            self.viol("would-hang", "a call would never return: %s (first taken at %s, taken again at %s)" % (e, e.first_stack, e.second_stack))
+            return False
+
+    def stepped_since_failure(self):
+        """did the local wall clock step (daylight saving) between the last failure and now?"""
+        m = self.m
+        if self.opts["tz_kind"] != "dst" or m.last_failure is None:
+            return False
+        return aux.utc_offset(m.last_failure) != aux.utc_offset(self.clock.time())
+
+    def setting(self, sym):
+        """a public attribute assigned mid-session (class A) / the session continues on a duplicate (class D)"""
+        ctx, m, kind = self.ctx, self.m, sym[0]
+        if kind == "Y":
+            o = self.do(("dup", sym[1]))
+            if o["dup"]:
+                ctx.count("duplicates_continued")
+                ctx.count("duplicates_continued:" + sym[1])
+            else:
+                ctx.count("duplicate_unsupported:%s(recorded)" % sym[1])
+            self.note("Y", sym[1], o["dup"])
+            return not self.dead
+        ctx.count("settings_assigned_midsession")
+        if kind == "tE":
+            raw = sym[1]
+            self.do(("set", "enable_circuit_breaker", raw))
+            new = bool(raw)
+            if new and not self.enabled:
+                ctx.count("reenabled_midsession")
+                st = self.rig.loop.get_circuit_breaker_stats()
+                if st.state.value == "open" and self.early_open is not None:
+                    self.viol("opens-before-threshold", "breaker enabled again and found open: it had opened (while disabled) after %d failure(s) in total, threshold %s" % self.early_open)
+                    return False
+                m.state = st.state.value
+                if m.state == "closed":
+                    m.consec = 0          # consecutive failures are counted from here on
+            self.enabled = new
+        elif kind == "tT":
+            self.do(("set", "failure_threshold", sym[1]))
+            self.threshold = sym[1]
+            self.extreme_th = not is_small_int(self.threshold)
+        elif kind == "tR":
+            self.do(("set", "recovery_timeout", _dt.timedelta(seconds=sym[1])))
+            self.recovery = float(sym[1])
+        elif kind == "tC":
+            self.do(("set", "enable_cache", sym[1]))
+            self.cache = bool(sym[1])
+        elif kind == "tG":
+            from operon_ai.topology.loops import GateLogic
+            self.do(("set", "gate_logic", GateLogic[sym[1]]))
+            self.logic = sym[1]
+            self.cur_cls = None      # what the scripted verdicts amount to depends on the gate
+        elif kind == "tK":
+            self.do(("set_cb", sym[1]))
+        elif kind == "tS":
+            self.do(("set", "silent", not sym[1]))
+        self.note(*sym)
+        return not self.dead
+
+    def _step(self, sym):
+        ctx, m, clock = self.ctx, self.m, self.clock
         real = self.real
         ctx.count("steps")
         if self.long:
             ctx.count("long_session_steps")
+        if isinstance(sym, tuple):
+            return self.setting(sym)
+        loop = self.rig.loop
+        threshold, recovery, cache, enabled, logic = self.threshold, self.recovery, self.cache, self.enabled, self.logic
         if sym in ("d<", "d=", "d>", "d-", "d+", "dD"):
             rec = max(0.0, recovery)
             if m.last_failure is not None and m.state == "open":
@@ -346,10 +593,10 @@ class Session:
             dt = {"d<": half, "d=": remaining, "d>": remaining + 1.0, "d-": max(0.0, round(remaining - 0.001, 3)), "d+": remaining + 0.001,
                   "dD": DAY + half}[sym]
             if sym == "dD" and clock.offset > 60 * DAY:
-                dt = half                            # keep every instant within one season (no daylight-saving switch in local time)
+                dt = half                            # bounded virtual horizon
             self.do(("adv", dt))
             self.note(sym, dt)
-            return True
+            return not self.dead
         if sym == "R":
             self.do(("reset",))
             m.state, m.total, m.consec = "closed", 0, 0
@@ -358,7 +605,7 @@ class Session:
                 self.viol("reset-does-not-close", "after reset: state=%s failure_count=%d" % (st.state.value, st.failure_count))
                 return False
             self.note("R")
-            return True
+            return not self.dead
         if sym == "K":
             ctx.count("cache_clears")
             st0 = loop.get_circuit_breaker_stats()
@@ -370,9 +617,10 @@ class Session:
                     st0.state.value, st0.failure_count, st.state.value, st.failure_count))
                 return False
             self.note("K")
-            return True
+            return not self.dead
         # ---- a request
         slow, who = 0.0, "ex"
+        variant = None
         if sym == "C":
             if not self.cached_prompts:
                 return True
@@ -383,15 +631,24 @@ class Session:
             verdicts = None
         else:
             is_slow = sym in ("Fs", "Xs")
-            if sym == "Xa":
-                who = "as"
-            sym = sym[0]
+            if sym in FAIL_VARIANTS:
+                variant, sym = sym, FAIL_VARIANTS[sym]
+                if variant == "FX":
+                    who = "as"
+            else:
+                if sym == "Xa":
+                    who = "as"
+                sym = sym[0]
             if sym == "F" and logic in ("OR", "EXECUTOR_PRIORITY"):
                 sym = "X"     # an executor FAILURE verdict is not a blocked/failed request under these gates
+                if variant is not None:
+                    variant = "XX"
             want = sym
             i = next(self.fresh)
             verdicts = None
             if real:
+                if sym == "A":
+                    return True
                 prompt = {"S": "summarise report %d", "B": "destroy table %d", "F": "deploy build %d", "X": "summarise report %d"}[sym] % i
             else:
                 pm = self.opts["prompts"]
@@ -399,10 +656,20 @@ class Session:
                     prompt = "the one request"
                 elif pm == "equal":
                     prompt = "".join(["the one ", "request"])
+                elif self.opts["hostile"]:
+                    prompt = aux.HOSTILE_PROMPT[i % len(aux.HOSTILE_PROMPT)] % i
+                    if i % 3 == 0:
+                        prompt = aux.HostileStr(prompt)
+                elif self.opts["gc"]:
+                    prompt = "request %06d" % (i % 10 ** 6)     # fresh strings of equal length, dropped after the request
                 else:
                     prompt = "request %d" % i
-                verdicts = {"S": ("EXECUTE", "PERMIT"), "B": ("EXECUTE", "BLOCK") if logic == "AND" else ("BLOCK", "BLOCK"),
-                            "F": ("FAILURE", "PERMIT"), "X": ("raise", "PERMIT") if who == "ex" else ("EXECUTE", "raise")}[sym]
+                if variant is None:
+                    verdicts = {"S": ("EXECUTE", "PERMIT"), "B": ("EXECUTE", "BLOCK") if logic == "AND" else ("BLOCK", "BLOCK"),
+                                "F": ("FAILURE", "PERMIT"), "X": ("raise", "PERMIT") if who == "ex" else ("EXECUTE", "raise")}[sym]
+                else:
+                    verdicts = {"FF": ("FAILURE", "FAILURE"), "Fw": ("FAILURE", WEIRD_VERDICTS[i % len(WEIRD_VERDICTS)]), "XX": ("raise", "raise"),
+                                "FX": ("FAILURE", "raise"), "AF": ("EXECUTE", "FAILURE")}[variant]
                 self.cur_cls = sym
                 if is_slow:
                     slow = round(max(0.0, recovery) * 0.75, 3)
@@ -413,22 +680,46 @@ class Session:
         elapsed = None if m.last_failure is None else clock.time() - m.last_failure
         if real:
             ctx.count("real_agent_steps")
-        if self.opts["verbose"]:
+        if self.rig.printing and not real:
             ctx.count("verbose_requests")
+            if self.opts["stream"] == "strict":
+                ctx.count("strict_stream_requests")
+        if self.opts["hostile"] and not real:
+            ctx.count("hostile_text_requests")
+        if self.opts["gc"]:
+            ctx.count("gc_requests")
+        if self.tz:
+            ctx.count("tz_requests")
         if self.opts["ident"] == "const" and not real:
             ctx.count("shared_verdict_object_requests")
         chars0 = self.rig.sink.chars
+        falsy0 = self.rig.falsy_calls
         o = self.do(("req", prompt, verdicts, slow, who))
-        if self.opts["verbose"]:
+        if self.dead:
+            return False
+        if self.rig.printing and not real:
             ctx.count("verbose_output_chars", self.rig.sink.chars - chars0)
+        if self.rig.falsy_calls != falsy0:
+            ctx.count("falsy_callable_calls(recorded)", self.rig.falsy_calls - falsy0)
+        if self.rig.cb_mode == "falsy":
+            ctx.count("falsy_callable_requests")
         self.observed.append(obs_tuple(o))
         if o["err"] is not None:
+            if isinstance(o["err"], WouldHang):
+                raise o["err"]
             self.viol("run-raises", "run() raised %r" % (o["err"],))
             return False
         r, calls, spent = o["r"], o["calls"], o["spent"]
         if o["cb_raised"]:
             ctx.count("callback_exceptions_propagated")
+        if o["print_raised"]:
+            ctx.count("strict_stream_refused_output")
         st = loop.get_circuit_breaker_stats()
+        if r is None:
+            # the output stream failed before the loop had logged a reply: nothing to classify, follow the loop
+            ctx.count("unclassified_outcome(recorded)")
+            self.resync(st, st0)
+            return True
         # classify what actually happened from the monitors (not from the loop's own bookkeeping)
         ex, asr = self.rig.ex, self.rig.asr
         if calls == 0:
@@ -439,20 +730,27 @@ class Session:
                 outcome = "X"
             elif a_v == "BLOCK" or e_v == "BLOCK":
                 outcome = "B"
-            elif e_v == "FAILURE" and a_v == "PERMIT":
-                outcome = "F"
+            elif e_v == "FAILURE":
+                outcome = "F"          # the assessor did not block
+                if a_v == "FAILURE":
+                    ctx.count("real_both_agents_failing")
             elif e_v in ("EXECUTE", "PERMIT") and a_v == "PERMIT":
                 outcome = "S"
             else:
                 outcome = "other"
+        elif want == "A":
+            outcome = "other"
         elif want != "C":
             outcome = want
         else:
-            # the repeat was not served from the cache (expired / cleared / evicted): the stubs answered as currently scripted
-            outcome = self.cur_cls if self.cur_cls in ("S", "B", "F", "X") else "consulted-on-repeat"
-        self.note(sym, prompt, "->", r.action, "cached" if r.cached else "", "callback raised" if o["cb_raised"] else "", st.state.value, st.failure_count, outcome)
+            # the repeat was not served from the cache (expired / cleared / evicted / cache off): the stubs answered as currently scripted
+            outcome = self.cur_cls if self.cur_cls in ("S", "B", "F", "X") else "other" if self.cur_cls == "A" else "consulted-on-repeat"
+        if variant is not None and outcome in ("F", "X"):
+            ctx.count("both_agents_failing")
+        self.note(variant or sym, prompt, "->", r.action, "cached" if r.cached else "", "callback raised" if o["cb_raised"] else "", st.state.value, st.failure_count, outcome)
 
         if not enabled:
+            ctx.count("disabled_requests_judged")
             if r.action == "CIRCUIT_OPEN":
                 self.viol("disabled-breaker-refuses", "breaker disabled, reply CIRCUIT_OPEN")
                 return False
@@ -461,13 +759,34 @@ class Session:
                 return False
             if outcome in ("S", "B", "F") and cache:
                 self.cached_prompts.append((prompt, outcome))
+            # what happens meanwhile still counts for "in total" / "since the last failure" once the breaker is enabled again
+            if outcome in ("F", "X"):
+                m.total += 1
+                m.consec += 1
+                m.last_failure = clock.time()
+            elif outcome == "S":
+                m.consec = 0
+            elif outcome not in ("B", "cachehit") and (st.failure_count != st0.failure_count or st.last_failure != st0.last_failure):
+                m.total += 1
+                m.last_failure = clock.time()
+            # a loop that keeps its automaton running while disabled: remember an opening below the threshold of that moment
+            if st.state.value != "open":
+                self.early_open = None
+            elif st0.state.value != "open" and m.total < threshold:
+                self.early_open = (m.total, threshold)
             return True
 
         # ---- reference automaton step
         must_refuse = m.state == "open" and elapsed is not None and elapsed < recovery - 1e-4
         must_admit = m.state == "open" and elapsed is not None and elapsed >= recovery - 1e-5
+        stepped = (must_refuse or must_admit) and self.stepped_since_failure()
+        sfx = ":local-clock-step" if stepped else ""
+        if stepped:
+            ctx.count("local_clock_step_judged")
         if must_refuse:
             ctx.count("open_refusals_checked")
+            if self.tz:
+                ctx.count("tz_open_refusals")
             if recovery < 1.0:
                 ctx.count("subsecond_timeout_refusals")
             if int(elapsed % DAY) >= int(recovery % DAY):
@@ -476,7 +795,7 @@ class Session:
                     ctx.count("fractional_gap_refusals")  # ... with a timeout of at least a second (2.0 <= elapsed < 2.5, whole days dropped)
             if outcome != "refused" or not r.blocked:
                 mech = "open-consults-agents" if calls else "open-wrong-answer"
-                self.viol(mech, "OPEN for %.3fs of %.3fs: reply action=%s blocked=%s, %d agent calls" % (elapsed, recovery, r.action, r.blocked, calls))
+                self.viol(mech + sfx, "OPEN for %.3fs of %.3fs: reply action=%s blocked=%s, %d agent calls" % (elapsed, recovery, r.action, r.blocked, calls))
                 return False
             if spent != 0:
                 self.viol("open-spends-energy", "OPEN request spent %d ATP" % spent)
@@ -492,11 +811,13 @@ class Session:
                 return True
         elif outcome == "refused":
             why = "closed" if m.state == "closed" else "half-open" if m.state == "half_open" else "recovery timeout elapsed (%.3fs >= %.3fs)" % (elapsed, recovery)
-            self.viol("refuses-when-not-open" if m.state != "open" else "probe-refused-after-timeout",
+            self.viol("refuses-when-not-open" if m.state != "open" else "probe-refused-after-timeout" + sfx,
                       "request refused with CIRCUIT_OPEN while the breaker should admit it: %s" % why)
             return False
         if m.state == "open":
             ctx.count("probes_admitted")
+            if self.tz:
+                ctx.count("tz_probes_admitted")
             if elapsed >= DAY:
                 ctx.count("day_jump_probes")
             if recovery <= 0:
@@ -510,8 +831,7 @@ class Session:
             return True
         if outcome in ("other", "consulted-on-repeat") or outcome.startswith("no-agents"):
             ctx.count("unclassified_outcome(recorded)")
-            # resynchronise the model with the implementation for unclassifiable outcomes
-            m.state = st.state.value
+            self.resync(st, st0)
             return True
         if cache and outcome in ("S", "B", "F"):
             self.cached_prompts.append((prompt, outcome))
@@ -552,23 +872,24 @@ class Session:
             m.total += 1
             m.consec += 1
             m.last_failure = clock.time()
+            both = ":both-agents" if variant is not None else ""
             if m.state == "half_open":
                 ctx.count("probe_failure_reopened")
                 m.state = "open"
                 if st.state.value != "open":
-                    self.viol("probe-failure-does-not-reopen:" + outcome, "failed probe (%s) left the breaker %s" % (outcome, st.state.value))
+                    self.viol("probe-failure-does-not-reopen:" + outcome + both, "failed probe (%s) left the breaker %s" % (variant or outcome, st.state.value))
                     return False
-                if st.last_failure is None or abs(st.last_failure.timestamp() - clock.time()) > 1e-3:
+                if not stamp_denotes(st.last_failure, clock.time()):
                     self.viol("probe-failure-does-not-restart-timeout", "failed probe did not restart the recovery timeout")
                     return False
             else:
                 if st.failure_count <= st0.failure_count and st.state.value == "closed":
-                    mech = "executor-failure-not-counted" if outcome == "F" else "exception-not-counted"
+                    mech = ("executor-failure-not-counted" if outcome == "F" else "exception-not-counted") + both
                     if m.consec >= threshold:
                         self.viol(mech, "%d consecutive failures with threshold %s: breaker still CLOSED (failure_count %d)" % (
                             m.consec, threshold, st.failure_count))
                         return False
-                    self.viol(mech, "failure (%s) did not increase the failure count (%d)" % (outcome, st.failure_count))
+                    self.viol(mech, "failure (%s) did not increase the failure count (%d)" % (variant or outcome, st.failure_count))
                     return False
                 if st.state.value == "open":
                     if m.total < threshold:
@@ -581,7 +902,7 @@ class Session:
                 elif m.consec >= threshold:
                     self.viol("not-open-after-threshold", "%d consecutive failures, threshold %s, breaker %s" % (m.consec, threshold, st.state.value))
                     return False
-                if st.last_failure is None or abs(st.last_failure.timestamp() - clock.time()) > 1e-3:
+                if not stamp_denotes(st.last_failure, clock.time()):
                     self.viol("last-failure-not-recorded", "failure instant not recorded")
                     return False
         if m.state == "open":
@@ -589,6 +910,15 @@ class Session:
         if not self.long or len(m.trace) < 40:
             m.trace.append((m.state, min(m.total, 5)))
         return True
+
+    def resync(self, st, st0):
+        """an outcome outside the statement's vocabulary: the automaton follows the loop (anything it counted is counted as a failure in total)"""
+        m = self.m
+        if st.failure_count != st0.failure_count or st.last_failure != st0.last_failure:
+            m.total += 1
+            m.last_failure = self.clock.time()
+        m.state = st.state.value
+        m.consec = 0
 
     def finish(self):
         if self.reached_open and not self.dead:
@@ -602,17 +932,36 @@ def describe(cfg, opts, real):
     return d
 
 
+_STEPS_CACHE = {}
+
+
+@contextlib.contextmanager
+def world(opts):
+    """process time zone + virtual clock of one session (always restored). For a zone with daylight saving the clock starts shortly before
+    an instant at which the local clock steps."""
+    import operon_ai.topology.loops as loops_mod
+    with aux.tz_env(opts["tz"]):
+        base = BASE
+        if opts["tz_kind"] == "dst":
+            steps = _STEPS_CACHE.get(opts["tz"])
+            if steps is None:
+                steps = _STEPS_CACHE[opts["tz"]] = aux.local_clock_steps(BASE - 10_000_000.0, 500)
+            if steps:
+                base = steps[opts["dst_pick"] % len(steps)][0] - opts["dst_lead"]
+        clock = VClock(base=base)
+        with patched(clock, loops_mod):
+            yield clock
+
+
 def twin(ctx, primary, reads):
     """Replay the primary session's concrete operations on a fresh loop with no ('blind') or many ('noisy') read-only calls in between:
     every reply, agent-call count and energy spent must be the same."""
-    clock = VClock(base=1_700_000_000.0)
-    import operon_ai.topology.loops as loops_mod
-    with patched(clock, loops_mod):
+    with world(primary.opts) as clock:
         rig = Rig(clock, primary.cfg, primary.opts, real=False, reads=reads)
         k = 0
         for op in primary.script:
             o = rig.do(op)
-            if o is None:
+            if o is None or "dup" in o:
                 continue
             got, want = obs_tuple(o), primary.observed[k]
             ctx.count("twin_requests_compared")
@@ -626,34 +975,36 @@ def twin(ctx, primary, reads):
 
 
 def drive(ctx, n, cfg, seq, real, opts=DEFAULT_OPTS, twin_mode=None):
-    import operon_ai.topology.loops as loops_mod
-    clock = VClock(base=1_700_000_000.0)
     witness = {"config": describe(cfg, opts, real), "sequence": seq, "trace": []}
-    with patched(clock, loops_mod):
+    with world(opts) as clock:
         s = Session(ctx, clock, cfg, opts, witness, real=real)
         for sym in seq:
             if not s.step(sym):
                 break
         s.finish()
     if twin_mode and not s.dead and not real:
-        twin(ctx, s, twin_mode)
+        try:
+            twin(ctx, s, twin_mode)
+        except WouldHang as e:
+            ctx.violation("would-hang", "a call would never return: %s" % (e,), witness)
     if n % 5000 == 0:
         ctx.sample(witness)
 
 
 def drive_pair(ctx, n, rng, specs):
     """Two differently configured loops alive at the same time on one clock, used alternately (optionally charging one shared budget)."""
-    import operon_ai.topology.loops as loops_mod
     from operon_ai.state.metabolism import ATP_Store
-    clock = VClock(base=1_700_000_000.0)
     witness = {"instances": {lab: describe(cfg, opts, False) for lab, (cfg, opts, _seq) in zip("AB", specs)},
                "sequences": {lab: seq for lab, (_c, _o, seq) in zip("AB", specs)}, "trace": []}
     ctx.count("pair_sessions")
-    with patched(clock, loops_mod):
+    with world(specs[0][1]) as clock:
         shared = ATP_Store(10 ** 7, silent=True) if rng.random() < 0.5 else None
         witness["shared_budget"] = shared is not None
         ss = [Session(ctx, clock, cfg, opts, witness, label=lab, budget=shared) for lab, (cfg, opts, _seq) in zip("AB", specs)]
         todo = [list(specs[0][2]), list(specs[1][2])]
+        for i in (0, 1):
+            if ss[i].rejected:
+                todo[i] = []
         while todo[0] or todo[1]:
             i = rng.randrange(2)
             if not todo[i]:
@@ -672,33 +1023,89 @@ def random_opts(rng, cfg):
         recovery = rng.choice(EXT_RECOVERIES)
     opts = dict(DEFAULT_OPTS)
     opts["verbose"] = rng.random() < 0.33
-    opts["callbacks"] = rng.choice([None, None, None, "ok", "raise", "raise", "raise-some", "reads"])
+    opts["callbacks"] = rng.choice([None, None, None, "ok", "raise", "raise", "raise-some", "reads", "falsy"])
     opts["ident"] = "const" if rng.random() < 0.25 else "fresh"
     opts["prompts"] = rng.choice(["fresh", "fresh", "fresh", "same", "equal"])
     opts["cache_ttl"] = rng.choice([10 ** 6, 10 ** 6, 10 ** 6, 300.0, 0, 0.5, 10 ** 9])
     opts["timeout_seconds"] = rng.choice([30.0, 30.0, 0, 0.001, None, 10 ** 9])
+    # ---- round 4 (a generator of its own)
+    r4 = random.Random(rng.getrandbits(64))
+    if r4.random() < 0.04:
+        recovery = r4.choice(TYPED_RECOVERIES)
+    if r4.random() < 0.2:
+        opts["enabled_raw"] = (r4.choice(TRUTHY if enabled else FALSY),)
+    x = r4.random()
+    if x < 0.22:
+        opts["tz"], opts["tz_kind"] = r4.choice(aux.FIXED_ZONES), "fixed"
+    elif x < 0.34:
+        opts["tz"], opts["tz_kind"] = r4.choice(aux.DST_ZONES), "dst"
+        opts["dst_pick"] = r4.randrange(8)
+        rec = max(0.0, float(recovery))
+        opts["dst_lead"] = r4.choice([0.5, 1.0, 10.0, 30.0, 59.0, 100.0, 1000.0, round(rec * 0.5, 3) + 0.25, round(rec, 3) + 1.0])
+    if opts["verbose"] and r4.random() < 0.5:
+        opts["stream"] = "strict"
+    opts["hostile"] = r4.random() < (0.5 if opts["stream"] == "strict" else 0.2)
+    if opts["hostile"] and r4.random() < 0.5:
+        opts["prompts"] = "fresh"
+    x = r4.random()
+    opts["gc"] = "full" if x < 0.01 else "young" if x < 0.04 else False
+    if r4.random() < 0.2:
+        opts["locks"] = "stacks"          # the guard that also records where the lock was taken
     return (threshold, recovery, cache, enabled, logic), opts
+
+
+def late_symbol(rng):
+    """one assignment to a public attribute (class A) or a duplication (class D), with its value"""
+    k = rng.choice(["tE", "tE", "tE", "tT", "tT", "tR", "tR", "tC", "tG", "tK", "tK", "tS", "Y", "Y"])
+    if k == "tE":
+        return ("tE", rng.choice(TRUTHY + FALSY))
+    if k == "tT":
+        return ("tT", rng.choice([1, 1, 2, 2, 3, 4] + EXT_THRESHOLDS))
+    if k == "tR":
+        return ("tR", rng.choice([1.0, 60.0, 60.0] + [r for r in EXT_RECOVERIES if r <= DAY]))
+    if k == "tC":
+        return ("tC", rng.choice([True, False, 1, 0]))
+    if k == "tG":
+        return ("tG", rng.choice(["AND", "AND", "OR", "EXECUTOR_PRIORITY", "ASSESSOR_PRIORITY", "UNANIMOUS"]))
+    if k == "tK":
+        return ("tK", rng.choice([None, "ok", "raise", "raise-some", "reads", "falsy"]))
+    if k == "tS":
+        return ("tS", rng.random() < 0.6)
+    return ("Y", rng.choice(["copy", "copy", "deepcopy", "pickle"]))
+
+
+def round4_sequence(rng, L):
+    seq = rng.choices(RAND4_ALPHA, weights=RAND4_W, k=L)
+    if rng.random() < 0.6:
+        for _ in range(rng.randint(1, 3)):
+            seq.insert(rng.randrange(len(seq) + 1), late_symbol(rng))
+    if rng.random() < 0.15:
+        # disabled for a stretch of the session, then enabled again
+        a, b = sorted((rng.randrange(len(seq) + 1), rng.randrange(len(seq) + 1)))
+        seq.insert(b, ("tE", rng.choice(TRUTHY)))
+        seq.insert(a, ("tE", rng.choice(FALSY)))
+    return seq
 
 
 def long_session(ctx, n, rng, k):
     """> 20 000 operations on ONE instance: (even k) a threshold above 20 000 reached by that many failures with blocks, cache hits and short
     clock advances in between; (odd k) thousands of trip / refuse / probe cycles with small thresholds."""
-    import operon_ai.topology.loops as loops_mod
-    clock = VClock(base=1_700_000_000.0)
     opts = dict(DEFAULT_OPTS)
     opts["verbose"] = k % 4 >= 2
+    if k % 4 == 3:
+        opts["tz"], opts["tz_kind"] = aux.FIXED_ZONES[(k // 4) % len(aux.FIXED_ZONES)], "fixed"
     if k % 2 == 0:
         th = 20000 + rng.randrange(1, 500)
         cfg = (th, rng.choice([1.0, 2.5, 60.0]), rng.random() < 0.5, True, "AND")
-        pre = rng.choices(["F", "X", "Xa", "B", "C", "d<", "K"], weights=[6, 6, 2, 2, 1, 1, 0.05], k=th + th // 3)
+        pre = rng.choices(["F", "X", "Xa", "B", "C", "d<", "K", "FF", "XX"], weights=[6, 6, 2, 2, 1, 1, 0.05, 2, 1], k=th + th // 3)
         seq = pre + ["F"] * 5 + rng.choices(RAND_ALPHA, weights=RAND_W, k=300)
     else:
         cfg = (rng.choice([1, 2, 3, 4]), rng.choice([0.5, 1.0, 2.5, 60.0]), rng.random() < 0.5, True, "AND")
-        alpha = [a for a in RAND_ALPHA if a != "dD"]
-        w = [wt for a, wt in zip(RAND_ALPHA, RAND_W) if a != "dD"]
+        alpha = [a for a in RAND4_ALPHA if a != "dD"]
+        w = [wt for a, wt in zip(RAND4_ALPHA, RAND4_W) if a != "dD"]
         seq = rng.choices(alpha, weights=w, k=22000)
     witness = {"config": describe(cfg, opts, False), "sequence": "long session of %d symbols (trace = last steps)" % len(seq), "trace": []}
-    with patched(clock, loops_mod):
+    with world(opts) as clock:
         s = Session(ctx, clock, cfg, opts, witness, long=True)
         for sym in seq:
             if not s.step(sym):
@@ -729,14 +1136,30 @@ def run_case(ctx, n):
     real = (n % 10 == 0) and cfg[4] == "AND"
     if n % (250 if ctx.tier == "quick" else 2500) == 3:
         return thread_case(ctx, n, rng)
-    if real or n % 10 in (1, 2, 3):
+    if real:
+        opts = DEFAULT_OPTS
+        if n % 20 == 0:
+            # the genuine agents on a budget that runs dry: both then answer FAILURE
+            opts = dict(DEFAULT_OPTS, real_budget=rng.choice([20, 40, 60, 100, 150]))
+            seq = seq + rng.choices(["S", "F", "B", "d<", "d>"], weights=[4, 3, 1, 1, 1], k=8)
+        return drive(ctx, n, cfg, seq, real=True, opts=opts)
+    if n % 10 in (1, 2):
         # the round-1/2 workload unchanged: grid configurations, default options
-        return drive(ctx, n, cfg, seq, real=real)
+        return drive(ctx, n, cfg, seq, real=False)
+    if n % 10 in (0, 3):
+        # grid configurations, default options, round-4 alphabet (both agents failing, settings assigned mid-session, duplicates)
+        return drive(ctx, n, cfg, round4_sequence(rng, L), real=False)
     cfg2, opts = random_opts(rng, cfg)
     if n % 10 in (4, 5):
         cfg_b, opts_b = random_opts(rng, rng.choice(CONFIGS))
         seq_b = rng.choices(RAND_ALPHA, weights=RAND_W, k=rng.randint(5, 8))
+        if n % 10 == 5:
+            seq, seq_b = round4_sequence(rng, L), round4_sequence(rng, len(seq_b))
+        for k in ("tz", "tz_kind", "dst_pick", "dst_lead"):
+            opts_b[k] = opts[k]        # one process, one zone, one clock
         return drive_pair(ctx, n, rng, [(cfg2, opts, seq), (cfg_b, opts_b, seq_b)])
+    if n % 10 in (7, 9):
+        seq = round4_sequence(rng, L)
     drive(ctx, n, cfg2, seq, real=False, opts=opts, twin_mode={6: "blind", 7: "noisy"}.get(n % 10))
 
 
@@ -774,13 +1197,16 @@ def thread_case(ctx, n, rng):
     threshold = rng.choice([1, 2, 2, 3, 4])
     nthreads = rng.choice([2, 2, 3])
     reqs = [["E=%s;A=PERMIT;#%d.%d" % (rng.choice(["FAILURE", "raise"]), t, k) for k in range(rng.randint(1, 2))] for t in range(nthreads)]
+    if rng.random() < 0.5:
+        # both agents failing in one request is part of the mix
+        reqs = [[p.replace("A=PERMIT", "A=" + rng.choice(["PERMIT", "FAILURE", "raise"])) for p in ps] for ps in reqs]
     desc = {"threshold": threshold, "threads": reqs}
 
     def one(policy, label):
         loop = Loop(ATP_Store(10 ** 6, silent=True), failure_threshold=threshold, recovery_timeout_seconds=10 ** 6,
                     enable_cache=False, silent=True)
         loop.executor, loop.assessor = PStub("Gene_Z (Exec)", "E"), PStub("Gene_Y (Risk)", "A")
-        wrap_all_locks(loop, sched.SchedLock, "loop")
+        lockstate = aux.guard_locks(loop, sched.SchedLock, "loop")      # a lock the loop replaces later is wrapped again
         sc = sched.Scheduler(policy, watchdog_s=30.0)
         sc.run([(lambda ps=ps: [loop.run(p) for p in ps]) for ps in reqs])
         ctx.count("thread_schedules")
@@ -793,6 +1219,12 @@ def thread_case(ctx, n, rng):
             return sc
         if any(e is not None for e in sc.errors):
             ctx.violation("run-raises-under-threads", "run() raised %r" % ([e for e in sc.errors if e is not None][0],), w)
+            return sc
+        if lockstate["replaced"]:
+            ctx.count("lock_replaced_by_the_loop(recorded)", lockstate["replaced"])
+        held = aux.held_locks(lockstate)
+        if held:
+            ctx.violation("lock-held-after-return", "all requests returned and the instance lock(s) %s are still held" % held, w)
             return sc
         replies = [r for rs in sc.results for r in rs]
         K = sum(1 for r in replies if r.action != "CIRCUIT_OPEN")
@@ -821,5 +1253,69 @@ def thread_case(ctx, n, rng):
         one(sched.RandomPolicy(rng, (0.1, 0.3, 0.6)[i % 3]), "random")
 
 
+# ---- class I: a small probe of the same obligations in an interpreter started with -O -------------------------------------------------
+def child_cases():
+    nsweep = len(CONFIGS) * sweep_size(4) // 10
+    sweep = list(range(0, nsweep, max(1, nsweep // 250)))
+    rnd = [nsweep + k for k in range(20, 420) if (nsweep + k) % 250 != 3]
+    return sweep + rnd
+
+
+def child_main(seed):
+    """runs inside `python -O`: a few hundred ordinary cases of this check, result as one JSON line"""
+    ctx = core.Ctx(PID, "quick", seed)
+    for n in child_cases():
+        ctx.case = n
+        run_case(ctx, n)
+    print("C08-CHILD " + json.dumps({"optimized": not __debug__, "steps": ctx.counters.get("steps", 0), "violations": ctx.violations,
+                                     "violation_counts": ctx.violation_counts, "inconclusive": ctx.inconclusive_reasons}))
+
+
+def run_child(seed):
+    cmd = [sys.executable, "-O", "-B", "-m", "checks.c08_breaker", "--c08-child", str(seed)]
+    try:
+        p = subprocess.run(cmd, capture_output=True, text=True, timeout=900, cwd=core.VERIF)
+    except (subprocess.TimeoutExpired, OSError) as e:
+        return None, "child interpreter (-O) did not finish: %r" % (e,)
+    for line in p.stdout.splitlines():
+        if line.startswith("C08-CHILD "):
+            return json.loads(line[len("C08-CHILD "):]), None
+    return None, "child interpreter (-O) gave no result (rc=%s): %s" % (p.returncode, (p.stdout + p.stderr)[-600:])
+
+
+def extra_parent(pctx):
+    out, why = run_child(pctx.seed)
+    if out is None:
+        pctx.inconclusive(why)
+        return
+    if not out["optimized"]:
+        pctx.inconclusive("the child interpreter did not run with -O")
+        return
+    pctx.count("optimized_child_steps", out["steps"])
+    for r in out["inconclusive"]:
+        pctx.inconclusive(r)
+    seen = {}
+    for v in out["violations"]:
+        mech = v["mechanism"]
+        seen[mech] = seen.get(mech, 0) + 1
+        pctx.case = "python-O:case %s" % (v["case"],)
+        pctx.violation(mech, v["what"] + " [interpreter started with -O]", v["witness"])
+    for mech, cnt in out["violation_counts"].items():
+        extra = cnt - seen.get(mech, 0)
+        if extra > 0:
+            pctx.violation_counts[mech] = pctx.violation_counts.get(mech, 0) + extra
+    pctx.case = None
+
+
+def replay_special(ctx, case):
+    out, why = run_child(ctx.seed)
+    print(why or json.dumps(out["violation_counts"]))
+    for v in (out or {}).get("violations", []):
+        ctx.violation(v["mechanism"], v["what"], v["witness"])
+
+
 if __name__ == "__main__":
-    core.main(sys.modules[__name__])
+    if len(sys.argv) >= 3 and sys.argv[1] == "--c08-child":
+        child_main(int(sys.argv[2]))
+    else:
+        core.main(sys.modules[__name__])
